@@ -1,3 +1,4 @@
+import RossModel.Lemmas.SendMany
 import RossModel.Lemmas.Send
 /-!
 # C14 — Senders put byte-exact frames on the link, in order, even under back-pressure
@@ -42,5 +43,37 @@ theorem C14_serialSend_exact (p : Packet) (hn : p.data.length ≤ 28672) (rs : L
     (fl = .ioError → (serialSend p rs fl).2 = .err .writeError) ∧
     ((serialSend p rs fl).2 = .ok () ∨ (serialSend p rs fl).2 = .err .writeError) :=
   Ross.serialSend_exact p hn rs fl
+
+/-- several sends on one serial-port instance, for **every** device behaviour (short writes, zero writes, interrupts,
+I/O errors at any write, any flush answers): the device receives the concatenation of one piece per send, each piece a
+prefix of *that* send's wire image and the whole image when the send returned `Ok` — a failed send never leaks bytes
+into a later one -/
+theorem C14_serialSendMany_spec (ps : List Packet) (rs : List IoResp) (fls : List FlushResp) :
+    ∃ ws, (serialSendMany (ps.map usartBodies) rs fls).1 = ws.flatten ∧
+      SendPieces wireOf ws (ps.map usartBodies) (serialSendMany (ps.map usartBodies) rs fls).2.2 :=
+  Ross.serialSendMany_spec _ rs fls
+
+/-- with a healthy port every send succeeds, the port is flushed once per send, and exactly the concatenated wire
+images reach the device -/
+theorem C14_serialSendMany_exact (ps : List Packet) (rs : List IoResp) (fls : List FlushResp)
+    (hr : ∀ r ∈ rs, r.isFault = false) (hf : ∀ f ∈ fls, f = .ok) :
+    serialSendMany (ps.map usartBodies) rs fls =
+      ((ps.map usartBodies).flatMap wireOf, (ps.map usartBodies).length, (ps.map usartBodies).map fun _ => .ok ()) :=
+  Ross.serialSendMany_exact _ rs fls hr hf
+
+/-- USART: however often the device would block, several sends put exactly the concatenated wire images on it -/
+theorem C14_usartSendMany_exact (ps : List Packet) (rs : List WResp) (h : ∀ r ∈ rs, r ≠ .error) :
+    usartSendMany (ps.map usartBodies) rs = (ps.map usartBodies).flatMap wireOf :=
+  Ross.usartSendMany_exact _ rs h
+
+/-- CAN: every send hands a prefix of its own frames to the controller, all of them when it returns `Ok`, whatever
+was displaced before -/
+theorem C14_canSendMany_spec (ps : List Packet) (rs : List TxResp) :
+    ∃ ws, (canSendMany (ps.map canWire) rs).1 = ws.flatten ∧ SendPieces id ws (ps.map canWire) (canSendMany (ps.map canWire) rs).2 :=
+  Ross.canSendMany_spec _ rs
+
+/-- non-vacuity: the wire image of the packet `[1, 2, 3]`, as observed on the real serial port after repair D7 -/
+example : wireOf (usartBodies ⟨false, 9, [1, 2, 3]⟩) = [0x00, 0x09, 0x02, 0xc0, 0x01, 0x06, 0x09, 0x03, 0x01, 0x02, 0x03] := by
+  decide
 
 end Ross.Props
